@@ -8,6 +8,7 @@ import (
 	"flag"
 	"fmt"
 	"os"
+	"runtime/pprof"
 	"sort"
 	"strings"
 	"time"
@@ -40,6 +41,7 @@ type Job struct {
 	ExtraPkgs  []string          `json:"extra_pkgs"`
 	SampleMax  int               `json:"sample_max"`
 	ReplayOnly string            `json:"replay_only"`
+	InterpExtra []string         `json:"interp_extra"`
 }
 
 type Group struct {
@@ -127,6 +129,13 @@ func main() {
 	if job.SampleMax <= 0 {
 		job.SampleMax = 6
 	}
+	if pf := os.Getenv("GOSYM_CPUPROFILE"); pf != "" {
+		f, err := os.Create(pf)
+		if err == nil {
+			pprof.StartCPUProfile(f)
+			defer pprof.StopCPUProfile()
+		}
+	}
 	res := run(&job)
 	out, _ := json.MarshalIndent(res, "", " ")
 	if *outPath == "" {
@@ -148,6 +157,7 @@ func run(job *Job) *Result {
 		overlay[v] = b
 	}
 	sym.SolverTimeoutMs = job.TimeoutMs
+	sym.ExtraInterp = job.InterpExtra
 	t0 := time.Now()
 	pats := append([]string{job.Pkg}, job.ExtraPkgs...)
 	ex, spkgs, err := sym.Load(job.Repo, overlay, pats...)
@@ -265,6 +275,7 @@ func run(job *Job) *Result {
 	for fn, n := range ex.FuncCalls() {
 		res.Functions[fn] = n
 	}
+	sym.DumpQSites()
 	res.Truncated = ex.WasTruncated()
 	res.SolverS = st.Seconds()
 	res.WallS = time.Since(t1).Seconds()
